@@ -85,6 +85,13 @@ def render_cb(prog, cbid, indent="    "):
             f"{indent}    return SIM.cb({full!r}, self, {{}}, {grp!r})\n"
         )
     deco = f"{indent}@_sim_deco\n" if meta.get("wrapped") else ""
+    if meta.get("awaitable") and not meta.get("async"):
+        # a plain function that RETURNS an awaitable (e.g. an undecorated wrapper around a coroutine
+        # function): the async engine must await the value it returns
+        return (
+            f"{deco}{indent}def {name}({sig}):\n"
+            f"{indent}    return SIM.acb({full!r}, self, locals(), {grp!r})\n"
+        )
     if meta.get("async"):
         return (
             f"{deco}{indent}async def {name}({sig}):\n"
